@@ -64,7 +64,7 @@ def register(reg):
                  ("within_declared", "self._snapshots <= snapshots"),
                  ("storage", "self._storage == storage"), ("not_exhausted", "not self._exhausted")],
         frame=["_n", "_r", "_max_n", "_exhausted", "_snapshots", "_storage"],
-        props=("C17", "C08", "C03"), exc_props={"ValueError": ("C17",)}))
+        props=("C17", "C08", "C03"), exc_props={"ValueError": ("C17", "C06")}))
     reg.add(Contract(
         "mixed.MixedCheckpointSchedule.is_exhausted", self_class="MixedCheckpointSchedule",
         params=[("self", "obj")], is_property=True, pure=True, returns="bool",
@@ -109,7 +109,7 @@ def register(reg):
         requires=[("fresh_n", "self._n == 0"), ("fresh_r", "self._r == 0"),
                   ("not_exhausted", "not self._exhausted")],
         frame=["_n", "_r", "_exhausted"], props=STREAM, total=False,
-        exc_props={"*": ("C17", "C01")},
+        exc_props={"*": ("C17", "C01", "C02")},
         globals={"numba": "None"},
         locals={"snapshots": ("list", ["steptype", "int", "int"], True), "snapshot_n": "set",
                 "step_type": "steptype"},
